@@ -1,2 +1,31 @@
-(** C13 — placeholder until the table theorem is in place. *)
-From GoSh Require Import Base.Bytes Expand.Expand Expand.Spec.
+(** C13 — Parameter expansion follows the POSIX operator table for every parameter state. *)
+From GoSh Require Import Base.Bytes Base.Outcome Store.Env Expand.Expand Expand.Spec Expand.ParamProofs.
+
+(** For every environment, parameter name other than @ and *, operator of the table
+    (:- - := = :? ? :+ +), operator word, expansion mode and field context: the model of
+    expandParam performs exactly the action the POSIX table prescribes for the parameter's state
+    (unset / null / non-null): substitute the value, substitute the expansion of the word (expanded
+    in the documented mode), assign-and-substitute (an error for special and positional
+    parameters), fail with the word as message, or substitute nothing. *)
+Theorem C13_param_table :
+  forall users fuel e fs name op w mode act,
+    beqb name s_at = false -> beqb name s_star = false ->
+    In op table_ops ->
+    posix_table op (pstate_of e name) = Some act ->
+    expand_param users (S fuel) e fs name op (Some w) mode = table_result users fuel e fs name op w mode act.
+Proof. exact param_table. Qed.
+Print Assumptions C13_param_table.
+
+(** The word is expanded only when it is used: when the table says "value" or "null", the result
+    (fields and store) is the same for every word. *)
+Theorem C13_unused_word_irrelevant :
+  forall users fuel e fs name op w w' mode act,
+    beqb name s_at = false -> beqb name s_star = false -> In op table_ops ->
+    posix_table op (pstate_of e name) = Some act ->
+    match act with AValue _ | ANull => True | _ => False end ->
+    expand_param users (S fuel) e fs name op (Some w) mode = expand_param users (S fuel) e fs name op (Some w') mode.
+Proof. exact unused_word_irrelevant. Qed.
+Print Assumptions C13_unused_word_irrelevant.
+
+(** Not yet proved (correspondence and the table oracle only): the $@ / $* field rules, ${#p},
+    the four pattern-removal operators (they reduce to C12's theorems through match_model), nounset. *)
